@@ -6,13 +6,32 @@ sys.setrecursionlimit(20000)      # the shrinker walks labelled trees recursivel
 
 META = {
     'engine': 'lean-D',
-    'technique': 'Lean 4 proofs by structural induction over all tree shapes (continuation formulation of Morris threading, visited-prefix invariant for the tagged post-order walk) '
-                 'about a statement-by-statement hand model of bintree.c; model tied to the C by differential runs over every small shape',
-    'level_text': 'PLACEHOLDER',
-    'level_note': 'PLACEHOLDER',
+    'technique': 'Lean 4 proofs by structural induction over all tree shapes (continuation formulation of Morris threading for the in-order and pre-order iterators, '
+                 'visited-prefix invariant for the tagged post-order walk, bintree_free as that walk on a shrinking tree, list iterators by induction along the spine) '
+                 'about a statement-by-statement hand model of bintree.c in which every access to a deallocated node is an error result; '
+                 'model tied to the C by differential runs over every small shape plus degenerate/random shapes under ASan',
+    'level_text': 'Proved for every binary tree with pairwise distinct node ids (any shape, any size, incl. empty and single node), with any loop fuel >= 2*size+2: '
+                  'iterating to completion with the in-order, pre-order and post-order iterators returns exactly the recursive in/pre/post-order sequence (hence each node once), '
+                  'the post-order iterator reports each node\'s true parent, and the final heap IS the initial heap (every thread and tag undone); '
+                  'bintree_free calls the deallocator on exactly the post-order sequence, never reads or writes a deallocated node (such an access is an error result in the model, and the result is proved not to be an error), '
+                  'patches the live parent\'s link before the parent is reached, leaves all nodes of the tree dead and the rest of the heap untouched; bintree_free_left/right additionally clear the caller\'s link; '
+                  'the list iterator yields the recursive bintree_traverse_list sequence on every right-leaning and every left-leaning list spine without modifying the heap; '
+                  'the C recursive traversals equal the specification\'s traversals. All theorems are at full strength (no _partial). '
+                  'The tie to the C source is a correspondence run: every shape <= 7 nodes (quick) / <= 9 nodes (thorough, 4862 shapes of 9 nodes), spines/zig-zags/complete trees and random shapes up to 200 nodes, list spines up to 90 list nodes.',
+    'level_note': 'Trusted: Lean kernel (axioms propext and Quot.sound only); the hand model lean/Librfn/Model/Bintree.lean (pointer and tag bit of `left` as independent components = the >= 2-byte alignment assumption; '
+                  'the deallocator really frees; the is_list callback inspects its node and answers false for NULL); the model-vs-C tie is sampling (exhaustive over small shapes, not a proof about the C text): '
+                  'visit sequences, iter.parent at each post-order visit, link/tag images after completion and in the middle of cut-short iterations, deallocator logs, ASan on individually malloc\'ed nodes. '
+                  'Distinct node ids in the theorems correspond to distinct addresses of live nodes.',
     'design_ref': '§6 C11',
 }
-REQUIRED = []
+REQUIRED = ['Librfn.C11.' + n for n in (
+    'morris_in_continuation', 'in_order_iterator_correct', 'in_order_each_node_once',
+    'morris_pre_continuation', 'pre_order_iterator_correct', 'pre_order_each_node_once',
+    'tagging_pass_tags_every_node', 'descend_returns_first_unvisited', 'untag_advances_prefix',
+    'post_order_iterator_correct', 'post_order_each_node_once',
+    'free_patches_parent_first', 'free_children_first_once_no_uaf', 'free_left_clears_link', 'free_right_clears_link',
+    'list_iterator_right_spine', 'list_iterator_left_spine',
+    'trav_in_order', 'trav_pre_order', 'trav_post_order', 'trav_list')]
 
 ORDERS = ('in', 'pre', 'post')
 
@@ -573,6 +592,24 @@ def compare(ctx, exe, hs, label):
     return agreed
 
 
+def deeper_search(ctx, exe, rng):
+    """a proof obligation or the model/implementation tie broke and no failing input is known yet: a bigger campaign
+    of the implementation against the specification alone (the model is not consulted)"""
+    class T:      # thorough-size generation whatever the tier
+        tier = 'thorough'; cov = {}
+    hs, _ = gen(T, rng)
+    ctx.cov['deeper_search_histories'] = len(hs)
+    B = 400
+    for i in range(0, len(hs), B):
+        chunk = hs[i:i + B]
+        impl = run_impl(exe, chunk)
+        for j, h in enumerate(chunk):
+            io = impl[j] if j < len(impl) else run_impl(exe, [h], timeout=10)[0]
+            if not matches(io, spec(h)):
+                report(ctx, exe, h)
+                return
+
+
 def run_corpus(ctx, exe):
     d = os.path.join(vlib.VERIF, 'corpus', ctx.pid)
     hs = []
@@ -602,6 +639,8 @@ def run(ctx):
             agreed += compare(ctx, exe, hs[i:i + B], 'generated')
             if ctx.violations or ctx.broken:
                 break
+    if ctx.broken and not ctx.violations:
+        deeper_search(ctx, exe, vlib.Rng(ctx.seed + 7919))
     hist = {}
     for h, t in zip(hs, tags):
         hist[t] = hist.get(t, 0) + 1
